@@ -125,7 +125,19 @@ func (vc *FnVC) doCall(x ssa.Value, c *ssa.CallCommon) {
 	default:
 		// dynamic call through a func value
 		fv := vc.val(c.Value)
-		vc.assert("nil-deref", "call "+vc.exprText(c.Value), sNot(sEq(sx("fn.id", fv.S), "0")))
+		selfRef := false
+		if u, ok := c.Value.(*ssa.UnOp); ok {
+			if _, isFV := u.X.(*ssa.FreeVar); isFV {
+				if f := vc.eng.resolveClosureCall(vc.fn, c.Value); f != nil && (f == vc.fn || vc.eng.assignedBeforeAnyCall(vc.fn, f)) {
+					// the recursive-closure idiom: the variable a running closure reads itself (or a sibling closure) from
+					// was assigned (once) with that closure before the enclosing function made any call
+					selfRef = true
+				}
+			}
+		}
+		if !selfRef {
+			vc.assert("nil-deref", "call "+vc.exprText(c.Value), sNot(sEq(sx("fn.id", fv.S), "0")))
+		}
 		for _, a := range c.Args {
 			args = append(args, vc.val(a))
 		}
@@ -158,6 +170,39 @@ func (vc *FnVC) doCall(x ssa.Value, c *ssa.CallCommon) {
 	if closureFn != nil {
 		// the closure's contract may name its captured variables: bind them to their current contents here
 		vc.closureEnv = map[string]Val{}
+		if closureFn != vc.fn && closureFn.Parent() != nil && closureFn.Parent() == vc.fn.Parent() {
+			// a sibling closure: variables of the enclosing function captured by both are the same cells
+			for _, cfv := range closureFn.FreeVars {
+				for _, fv := range vc.fn.FreeVars {
+					if fv.Name() != cfv.Name() || !types.Identical(fv.Type(), cfv.Type()) {
+						continue
+					}
+					pt, isPtr := fv.Type().Underlying().(*types.Pointer)
+					if !isPtr {
+						continue
+					}
+					if r, ok := vc.regs[fv]; ok {
+						a := vc.addrOfRef(r.S, fv.Type())
+						k := vc.sorts.sortOf(pt.Elem())
+						vc.closureEnv[cfv.Name()] = Val{vc.load(a), pt.Elem(), k}
+					}
+				}
+			}
+		}
+		if closureFn == vc.fn {
+			// a closure calling itself: its captured variables are the callee's captured variables (current contents)
+			for _, fv := range vc.fn.FreeVars {
+				pt, isPtr := fv.Type().Underlying().(*types.Pointer)
+				if !isPtr {
+					continue
+				}
+				if r, ok := vc.regs[fv]; ok {
+					a := vc.addrOfRef(r.S, fv.Type())
+					k := vc.sorts.sortOf(pt.Elem())
+					vc.closureEnv[fv.Name()] = Val{vc.load(a), pt.Elem(), k}
+				}
+			}
+		}
 		for _, b := range vc.fn.Blocks {
 			for _, ins := range b.Instrs {
 				if mc, ok := ins.(*ssa.MakeClosure); ok && mc.Fn == closureFn {
@@ -492,6 +537,12 @@ func (vc *FnVC) havocAll() {
 	for _, sb := range vc.stableBoxes {
 		keeps = append(keeps, keep{sb.key, sb.ref, sSelect(vc.cur(sb.key), sb.ref)})
 	}
+	for _, sb := range vc.ownedFields {
+		if fo := vc.objInfo[sb.ref]; fo != nil && len(fo.sites) > 0 && vc.handedOnBefore(fo) {
+			continue // the object has been (or is being) handed on: the callee may reach it
+		}
+		keeps = append(keeps, keep{sb.key, sb.ref, sSelect(vc.cur(sb.key), sb.ref)})
+	}
 	for a := range vc.privSlices {
 		cur, ok := vc.st.locals[a]
 		if !ok {
@@ -676,6 +727,26 @@ func (vc *FnVC) registerRawKey(k string) bool {
 	if k == "MapLen" {
 		vc.registerKey(k, "(Array Int Int)")
 		return true
+	}
+	if strings.HasPrefix(k, "F$") {
+		// F$<pkg>.<Type>$<field>
+		rest := strings.TrimPrefix(k, "F$")
+		i := strings.LastIndex(rest, "$")
+		j := strings.Index(rest, ".")
+		if i > 0 && j > 0 && j < i {
+			if pkg := vc.eng.pkgByName(rest[:j]); pkg != nil {
+				if o := pkg.Scope().Lookup(rest[j+1 : i]); o != nil {
+					if st, ok := o.Type().Underlying().(*types.Struct); ok {
+						for f := 0; f < st.NumFields(); f++ {
+							if st.Field(f).Name() == rest[i+1:] {
+								key, _, _ := vc.fieldKey(o.Type(), f)
+								return key == k
+							}
+						}
+					}
+				}
+			}
+		}
 	}
 	return false
 }
